@@ -158,10 +158,9 @@ def oracle(case_lines, impl):
 
 def word_oracle(table, abbr, w):
     """what the property text demands of a key word of the command line, over the *set* of defined keys: `-c`
-    selects the argument with the short key c, `--name` the argument with the long key name (of ANY length >= 1),
-    else with abbreviations the only argument whose long key starts with name; a tuple lists several admissible
-    answers ("selects ... only if": for a one-character name the property does not force the abbreviation to be
-    accepted)"""
+    selects the argument with the short key c, `--name` the argument with the long key name (of ANY length >= 1:
+    `--v` is the long key v, never the short key), else with abbreviations the only argument whose long key starts
+    with name (also for a name of one character), else none"""
     if len(w) == 2 and w[:1] == b"-" and w[1] in OKCH and w[1:] != b"-":
         exact = [j for j, e in enumerate(table) if e[0] == w[1:]]
         return ("ok %d" % exact[0], "w-exact-short") if exact else ("ok none", "w-unknown")
@@ -171,12 +170,8 @@ def word_oracle(table, abbr, w):
         if exact:
             return "ok %d" % exact[0], "w-exact-long%d" % min(len(name), 2)
         c = [j for j, e in enumerate(table) if e[1].startswith(name)] if abbr else []
-        if len(name) == 1:
-            if len(c) == 1:
-                return ("ok %d" % c[0], "ok none"), "w-prefix1"
-            return ("ok none", "throw runtime_error") if c else ("ok none",), "w-prefix1"
         if len(c) == 1:
-            return "ok %d" % c[0], "w-unique-prefix"
+            return "ok %d" % c[0], "w-unique-prefix%d" % min(len(name), 2)
         return ("throw runtime_error", "w-ambiguous") if c else ("ok none", "w-unknown")
     return None, ""
 
@@ -213,32 +208,6 @@ def diff_is_failure(prop, p):
     are garbage specifications (parse rejections the property does not talk about) and the `parse`/`cmp`
     probes: tie only."""
     return False
-
-
-ONE_CHAR_WORD = __import__("re").compile(r"^keys word [01] 2d2d(?!2d|3d|2c|20|00)[0-9a-f]{2}$")
-
-
-def finding_matches(finding, p):
-    """known finding one-char-long-key: the word `--c` is looked up with the SHORT key c.  Only the exact shape
-    is excused: a `keys word` line with a one-character name on which the implementation answers what the Lean
-    model answers (theorem C05_cmdline_key, third clause) and the answer is the lookup of the short key."""
-    if finding.get("match", {}).get("custom") != "one-char-long-word":
-        return False
-    if p.kind != "oracle" or not ONE_CHAR_WORD.match(p.line or "") or p.impl != p.model:
-        return False
-    # the answer must be what `-c` gives in the same table (recomputed here from the accepted specifications)
-    table = []
-    for l in p.case.lines[:max(0, p.index - 1)]:
-        t = l.split(" ")
-        if t[:2] == ["keys", "add"] and len(t) == 3:
-            k = ref_parse(unhex(t[2]))
-            if k is None:
-                continue        # the oracle judged this line, so every specification it does not understand was refused
-            if not any(shares(e, k) for e in table):
-                table.append(k)
-    c = unhex(p.line.split(" ")[3])[2:]
-    exact = [j for j, e in enumerate(table) if e[0] == c]
-    return p.impl == ("ok %d" % exact[0] if exact else "ok none")
 
 
 def nontrivial_key(op, result):
@@ -408,7 +377,7 @@ def permutation_cases(rng, n):
 
 
 def generate(prop, tier, seed, scale=1):
-    # witnesses of the two repaired defects first
+    # witnesses of the repaired defects first
     yield "regression", [
         Case("r1", ["keys add " + hexs(s) for s in ("input-file", "input-dir", "input")]
              + lookup_lines(["input", "input-", "input-f", "inp"])),
@@ -419,6 +388,14 @@ def generate(prop, tier, seed, scale=1):
              + word_lines(["-v", "--verbose", "--version", "-x", "--input", "--ver", "--vers", "--verb", "--inp", "-q", "--q"])),
         Case("r4", ["keys add " + hexs(s) for s in ("input", "-x", "--version", "verbose,v")]
              + word_lines(["-v", "--verbose", "--version", "-x", "--input", "--ver", "--vers", "--verb", "--inp", "-q", "--q"])),
+        # long keys of one character next to the short key of the same character (fix for the former finding
+        # one-char-long-key): `--v` selects the long key, `-v` the short key, `--w` abbreviates `--wide`
+        Case("r5", ["keys add " + hexs(s) for s in ("--v", "-v", "wide", "x,--y")]
+             + word_lines(["--v", "-v", "--w", "-w", "--x", "-x", "--y", "-y", "--wide"])),
+        Case("r6", ["keys add " + hexs(s) for s in ("-v", "wide", "--v", "--w")]
+             + word_lines(["--v", "-v", "--w", "-w", "--wi", "--wide"])),
+        Case("r7", ["keys add " + hexs("--v")] + word_lines(["--v", "-v"])),
+        Case("r8", ["keys add " + hexs("-v")] + word_lines(["--v", "-v"])),
     ]
     if tier == "quick":
         yield "exhaustive key sets <=3 of 17 specs over a prefix-closed pool x all orders x all lookups x abbr", exhaustive_cases(3)
